@@ -199,6 +199,37 @@ for text, scores in (("ACGT", [0, 10, 20, 40]), ("TTTTNACG", [1, 2, 3, 4, 5, 6, 
                     lambda text=text, scores=scores, as_rna=as_rna, offset=offset: fastq_objects(text, scores, as_rna, offset))
 
 
+def fresh_files():
+    """file objects created without arguments share nothing with each other"""
+    a, b = fasta.FastaFile(), fasta.FastaFile()
+    a["h"] = "ACGT"
+    if len(b) != 0 or len(fasta.FastaFile()) != 0 or text_of(b).strip() != "":
+        return "FastaFile(): entries of one instance show up in another"
+    a, b = fastq.FastqFile(offset="Sanger"), fastq.FastqFile(offset="Sanger")
+    a["r"] = (NucleotideSequence("AC"), np.array([1, 2]))
+    if len(b) != 0 or len(fastq.FastqFile(offset="Sanger")) != 0:
+        return "FastqFile(): entries of one instance show up in another"
+    a, b = gb.GenBankFile(), gb.GenBankFile()
+    a.append("DEFINITION", ["x"])
+    if len(b) != 0 or len(gb.GenBankFile()) != 0:
+        return "GenBankFile(): fields of one instance show up in another"
+    a, b = gff.GFFFile(), gff.GFFFile()
+    a.append("s", "src", "gene", 1, 2, None, Location.Strand.FORWARD, None, {"ID": "z"})
+    if len(b) != 0 or len(gff.GFFFile()) != 0:
+        return "GFFFile(): entries of one instance show up in another"
+    f1, f2 = Feature("gene", [Location(1, 2)]), Feature("gene", [Location(1, 2)])
+    if f1.qual is f2.qual and f1.qual is not None and hasattr(f1.qual, "__setitem__"):
+        return "two features created without qualifiers share one qualifier dictionary"
+    x, y = Annotation(), Annotation()
+    x.add_feature(f1)
+    if len(list(y)) != 0 or len(list(Annotation())) != 0:
+        return "Annotation(): features of one instance show up in another"
+    return None
+
+
+R.check("editing a file object keeps text and parsed view consistent", "fresh file objects are independent", {}, fresh_files)
+
+
 # ------------------------------------------------------------------ GenBank
 D = Location.Defect
 LOCS = [Location(1, 10), Location(5, 5), Location(3, 8, Location.Strand.REVERSE), Location(2, 9, defect=D.BEYOND_LEFT),
@@ -340,8 +371,11 @@ def gff_case(seqid, source, typ, attrs):
     f = gff.GFFFile()
     try:
         f.append(seqid, source, typ, 5, 20, 1.5, Location.Strand.FORWARD, 0, attrs)
-    except ValueError:
-        return None          # refused with an error: allowed
+    except ValueError as e:
+        # refused with an error: allowed only for what the format cannot express (a seqid starting with '>')
+        if str(seqid).startswith(">"):
+            return None
+        return f"an entry the format can express was refused: {type(e).__name__}: {e}"
     f.append("other", "src", "gene", 1, 2, None, Location.Strand.REVERSE, None, {"ID": "z"})
     g = gff.GFFFile.read(io.StringIO(text_of(f)))
     if len(g) != 2:
